@@ -19,6 +19,7 @@ REG.contracts.append(_c01.c_order.contract)
 REG.contracts.append(_c08.c_update.contract)
 REG.contracts.append(_c08.c_change.contract)
 REG.contracts.append(_c08.c_add.contract)
+REG.contracts.append(_c08.c_adjust.contract)      # a populated last class always gets room above it: no particle leaves through the upper end of the grid
 
 
 @REG.contract('_processX', [KE + ':PrecipitateModel._processX'], configs=[dict(name='P=%d' % P, P=P) for P in (1, 2)])
